@@ -869,6 +869,38 @@ impl<F: Read + Write + Seek> Finish<F> for FinishImpl {
     }
 }
 
+/// Verification hook: a snapshot of in-memory state that the public API does
+/// not expose (string pool entries and the modification flags).
+#[cfg(msi_verif)]
+#[derive(Clone, Debug)]
+pub struct VerifSnapshot {
+    /// String pool entries (text, refcount), in reference order.
+    pub pool: Vec<(String, u16)>,
+    /// Whether string references are three bytes wide.
+    pub long_string_refs: bool,
+    /// Whether a finisher is installed.
+    pub finisher: bool,
+    /// Whether the summary information is marked modified.
+    pub summary_modified: bool,
+    /// Whether the string pool is marked modified.
+    pub pool_modified: bool,
+}
+
+#[cfg(msi_verif)]
+impl<F> Package<F> {
+    /// Verification hook: returns a snapshot of the in-memory string pool and
+    /// modification flags.
+    pub fn verif_snapshot(&self) -> VerifSnapshot {
+        VerifSnapshot {
+            pool: self.string_pool.verif_entries(),
+            long_string_refs: self.string_pool.long_string_refs(),
+            finisher: self.finisher.is_some(),
+            summary_modified: self.is_summary_info_modified,
+            pool_modified: self.string_pool.is_modified(),
+        }
+    }
+}
+
 // ========================================================================= //
 
 #[cfg(test)]
